@@ -66,6 +66,19 @@ impl State {
             (Self::WriteClosed, Flag::Fin) => {
                 *self = Self::BothClosed { reset: false };
             }
+            (
+                Self::ClosingWrite {
+                    read_closed: false,
+                    inner,
+                },
+                Flag::Fin,
+            ) => {
+                // The remote closed our read half while we are still closing the write half.
+                *self = Self::ClosingWrite {
+                    read_closed: true,
+                    inner,
+                };
+            }
             (Self::Open, Flag::StopSending) => {
                 *self = Self::WriteClosed;
             }
@@ -325,6 +338,21 @@ mod tests {
     use std::io::ErrorKind;
 
     use super::*;
+
+    #[test]
+    fn cannot_read_after_receiving_fin_while_closing_write() {
+        let mut open = State::Open;
+
+        open.close_write_barrier().unwrap();
+        open.close_write_message_sent();
+        open.handle_inbound_flag(Flag::Fin, &mut Bytes::default());
+        let error = open.read_barrier().unwrap_err();
+
+        assert_eq!(error.kind(), ErrorKind::BrokenPipe);
+
+        open.write_closed();
+        assert!(matches!(open, State::BothClosed { reset: false }));
+    }
 
     #[test]
     fn cannot_read_after_receiving_fin() {
